@@ -335,6 +335,33 @@ def run(ctx):
     meta_rules(ctx)
     prescan_tag_rules(ctx)
     prescan_dispatch_position(ctx)
+    bom_table(ctx)
+
+
+def bom_table(ctx):
+    """C06.10: BOM sniffing (Encoding standard) knows exactly UTF-8, UTF-16BE and UTF-16LE.  An entry for an encoding that the
+    label lookup does not resolve makes detectBOM skip the bytes and report no encoding; FF FE 00 00 -- a UTF-16LE BOM followed
+    by U+0000 -- is then not decoded as UTF-16LE, and the first source of the documented precedence is lost."""
+    r = ctx.r
+    r.rule("C06.10", "the BOM table holds exactly the encodings BOM sniffing is defined for (utf-8, utf-16le, utf-16be)", floor=3)
+    f = ctx.repo.func(REL, "HTMLBinaryInputStream.detectBOM")
+    dicts = [s.value for s in walk_no_nested(f.node) if isinstance(s, ast.Assign) and isinstance(s.value, ast.Dict) and
+             all("BOM" in norm(k) for k in s.value.keys)]
+    if len(dicts) != 1:
+        r.idiom("C06.10", False, "bom-table", f.where, "detectBOM: the BOM table was not found")
+        return
+    std = {"BOM_UTF8": "utf-8", "BOM_UTF16_LE": "utf-16le", "BOM_UTF16_BE": "utf-16be"}
+    seen = set()
+    for k, v in zip(dicts[0].keys, dicts[0].values):
+        kn = norm(k).split(".")[-1]
+        label = ctx.ce.try_eval(v, f.module)
+        seen.add(kn)
+        r.check("C06.10", kn in std and label == std.get(kn), "bom::%s" % kn, "%s:%d" % (REL, k.lineno),
+                "the BOM table maps %s to %r: BOM sniffing is defined for UTF-8 and UTF-16 only, and the label lookup does not know %r, "
+                "so the bytes are skipped without an encoding being chosen (b'\\xff\\xfe\\x00\\x00...' is a UTF-16LE BOM followed by "
+                "U+0000, not UTF-32)" % (kn, label, label), {"bom": kn, "label": label}, detail={"bom": kn, "label": label})
+    for kn in sorted(set(std) - seen):
+        r.bad("C06.10", "bom::%s" % kn, f.where, "the BOM table has no entry for %s" % kn)
 
 
 def decoder_rule(ctx, rid):
@@ -527,6 +554,8 @@ def mutants():
                 "        charEncoding = lookupEncoding(self.transport_encoding), \"certain\"\n"
                 "        if charEncoding[0] is not None:\n            return charEncoding\n\n")
     return [
+        T("bom-utf32-entry", REL, "            codecs.BOM_UTF16_LE: 'utf-16le', codecs.BOM_UTF16_BE: 'utf-16be',\n        }", "            codecs.BOM_UTF16_LE: 'utf-16le', codecs.BOM_UTF16_BE: 'utf-16be',\n            codecs.BOM_UTF32_LE: 'utf-32le',\n        }", "C06.10"),
+        T("bom-utf16-swapped", REL, "codecs.BOM_UTF16_LE: 'utf-16le', codecs.BOM_UTF16_BE: 'utf-16be'", "codecs.BOM_UTF16_LE: 'utf-16be', codecs.BOM_UTF16_BE: 'utf-16le'", "C06.10"),
         T("endtag-extra-advance", REL, "    def handlePossibleEndTag(self):\n        return self.handlePossibleTag(True)", "    def handlePossibleEndTag(self):\n        next(self.data)\n        return self.handlePossibleTag(True)", "C06.9"),
         T("endtag-skip-attrs", REL, "        else:\n            # Read all attributes\n            attr = self.getAttribute()", "        elif endTag:\n            self.handleOther()\n        else:\n            # Read all attributes\n            attr = self.getAttribute()", "C06.8"),
         T("late-meta-case-sensitive", "html5parser.py", "                  attributes[\"http-equiv\"].lower() == \"content-type\"):", "                  attributes[\"http-equiv\"] == \"content-type\"):", "C06.7"),
